@@ -45,7 +45,7 @@ func init() {
 }
 
 func runC08(a *A) {
-	r := resolveRolesG(a, "C08-R0", "c")
+	r := resolveRolesG(a, "C08-R0", "r")
 	if r != nil {
 		c08R1(a, r)
 	}
